@@ -2,6 +2,7 @@ import BFL.Model.Density
 import BFL.Bridge.Mat
 import BFL.Bridge.Det
 import BFL.Proofs.Density
+import Mathlib.Data.Real.Basic
 /-
 The executable density model (`BFL/Model/Density.lean`) in Mathlib's vocabulary: what each
 transcribed line of `multivariate_gaussian_log_density(_UVR)` computes, over any field.
@@ -21,6 +22,9 @@ theorem InvOK.eq {n : Nat} {inv : InvFn F} {A : Mat F n n} (h : InvOK inv A) :
 
 theorem InvOK.isUnit {n : Nat} {inv : InvFn F} {A : Mat F n n} (h : InvOK inv A) : IsUnit (toM A) :=
   (Matrix.isUnit_iff_isUnit_det _).2 (Matrix.isUnit_det_of_right_inverse h)
+
+/-- An inverse routine that is correct on every invertible matrix. -/
+def InvCorrect (inv : InvFn ℝ) : Prop := ∀ (n : Nat) (A : Mat ℝ n n), IsUnit (toM A) → InvOK inv A
 
 /-- Mathlib's inverse as an inverse routine (non-vacuity of the contract). -/
 noncomputable def mathlibInv : InvFn F := fun _ A => Mat.of (fun i j => ((toM A)⁻¹) i j)
